@@ -11,17 +11,18 @@ Lemma cp_send t p l : client_pkts (TSend t client p :: l) = p :: client_pkts l.
 Proof. reflexivity. Qed.
 
 (* ---- packets to the client produced by the parts of the transfer machine ---- *)
-Lemma await_cp vr want : forall evs now dl,
-  client_pkts (snd (await vr want now dl evs)) = [].
+Lemma await_cp c want : forall evs now dl,
+  client_pkts (snd (await c want now dl evs)) = [].
 Proof.
-  induction evs as [|[t a d] evs IH]; intros now dl; cbn [await]; [reflexivity|].
+  induction evs as [|[t a d] evs IH]; intros now dl; cbn [await];
+    destruct (negb (late_recv (v c)) && (dl <=? now)%Z); try reflexivity.
   destruct (t <? now + sock_timeout now dl)%Z; [|reflexivity].
   destruct (negb (a =? client)%N) eqn:Ea.
-  - specialize (IH (Z.max now t) dl). destruct (await vr want (Z.max now t) dl evs) as [[[o n2] e2] l2].
+  - specialize (IH (Z.max now t + proc c)%Z dl). destruct (await c want (Z.max now t + proc c)%Z dl evs) as [[[o n2] e2] l2].
     cbn [snd] in *. unfold client_pkts in *. cbn [flat_map]. apply negb_true_iff in Ea. rewrite Ea. exact IH.
-  - destruct (classify vr d); try reflexivity.
+  - destruct (classify (v c) d); try reflexivity.
     destruct (n =? want)%N; [reflexivity|].
-    specialize (IH (Z.max now t) dl). destruct (await vr want (Z.max now t) dl evs) as [[[o n2] e2] l2].
+    specialize (IH (Z.max now t + proc c)%Z dl). destruct (await c want (Z.max now t + proc c)%Z dl evs) as [[[o n2] e2] l2].
     cbn [snd] in *. exact IH.
 Qed.
 
@@ -30,8 +31,8 @@ Lemma send_tries_cp c p want : forall tries now evs,
 Proof.
   induction tries as [|k IH]; intros now evs; cbn [send_tries].
   - exists O. split; [reflexivity|congruence].
-  - pose proof (await_cp (v c) want evs now (now + tmo c)%Z) as Ha.
-    destruct (await (v c) want now (now + tmo c)%Z evs) as [[[o n1] e1] l1]. cbn [snd] in Ha.
+  - pose proof (await_cp c want evs now (now + tmo c)%Z) as Ha.
+    destruct (await c want now (now + tmo c)%Z evs) as [[[o n1] e1] l1]. cbn [snd] in Ha.
     destruct o; try (exists 1%nat; cbn [snd]; rewrite cp_send, Ha; split; [reflexivity|congruence]).
     destruct k as [|k'].
     + exists 1%nat. destruct (retry_fallthrough (v c)); cbn [snd]; rewrite cp_send, Ha; (split; [reflexivity|congruence]).
